@@ -8,9 +8,12 @@
 //	                     Q Path(<dir>/sub/deeper/app.log) (directory created by Write), E Path("") (New fails)
 //	                     pre: "-" or i:n,i:n,…  pre-existing file with index i (0 = current, i = backup i) holding n
 //	                     copies of byte 200+i%50
+//	                     M<octal> WithMask; S and B take signed numbers; without P/Q/E the rotator is only constructed
+//	                     (PathToLog must be DefaultPath()) and never written
 //	w <n>                Write of n copies of byte (k%199)+1 where k counts the `w` lines of the history; runs under a
 //	                     deadline, a Write that does not return prints `hang`
-//	close | reopen | sync | obs
+//	close | sync | obs   (also under the deadline: a Close or Sync that blocks prints `hang`)
+//	reopen [<opts>]      Close, then New on the same path with the same options, or with <opts> (no path letters)
 package main
 
 import (
@@ -34,14 +37,14 @@ const baseName = "app.log"
 type rot struct {
 	root   string // scratch directory of the current history
 	path   string // path of the log file
+	pathO  func(*rotation.Rotator) error
 	opts   []func(*rotation.Rotator) error
 	r      *rotation.Rotator
 	k      int
-	dead   bool // a Write of this history never returned
-	hangs  int  // hangs seen by this process
-	zombie int  // writers that could not be made to return
-	seq    int
-	w      *worker
+	dead   bool // a call of this history never returned
+	g      guard
+	buf    []byte // one buffer reused (and overwritten) for every Write: the rotator must not keep a reference to it
+	noskip bool
 }
 
 var scratchDir string
@@ -70,7 +73,8 @@ func findScratch() string {
 
 func (a *rot) cleanup() {
 	if a.r != nil && !a.dead {
-		_ = a.r.Close()
+		r := a.r
+		a.g.call(func() wres { return wres{0, r.Close()} }, "")
 	}
 	a.r = nil
 	if a.root != "" {
@@ -174,37 +178,42 @@ func errStr(err error) string {
 	return "error"
 }
 
-// threadCPU is the CPU time (user+system) consumed so far by one OS thread of this process; ok=false if /proc does
-// not tell. (Process-wide CPU time is useless here: garbage collector threads burn CPU while a descheduled writer waits.)
-func threadCPU(tid int) (time.Duration, bool) {
+// threadState returns the scheduler state letter and the CPU time (user+system) of one OS thread of this process;
+// ok=false if /proc does not tell. (Process-wide CPU time is useless here: garbage collector threads burn CPU while a
+// descheduled caller waits.)
+func threadState(tid int) (byte, time.Duration, bool) {
 	data, err := os.ReadFile(fmt.Sprintf("/proc/self/task/%d/stat", tid))
 	if err != nil {
-		return 0, false
+		return 0, 0, false
 	}
 	i := bytes.LastIndexByte(data, ')')
 	if i < 0 {
-		return 0, false
+		return 0, 0, false
 	}
 	f := strings.Fields(string(data[i+1:]))
-	if len(f) < 13 {
-		return 0, false
+	if len(f) < 13 || len(f[0]) != 1 {
+		return 0, 0, false
 	}
 	ut, e1 := strconv.ParseInt(f[11], 10, 64)
 	st, e2 := strconv.ParseInt(f[12], 10, 64)
 	if e1 != nil || e2 != nil {
-		return 0, false
+		return 0, 0, false
 	}
-	return time.Duration(ut+st) * (time.Second / 100), true // USER_HZ is 100 on Linux
+	return f[0][0], time.Duration(ut+st) * (time.Second / 100), true // USER_HZ is 100 on Linux
+}
+
+type wres struct {
+	n   int
+	err error
 }
 
 type job struct {
-	r   *rotation.Rotator
-	b   []byte
+	f   func() wres
 	out chan wres
 }
 
-// worker is a goroutine pinned to its own OS thread that executes the Write calls, so that the CPU time a Write
-// consumes can be read per thread.
+// worker is a goroutine pinned to its own OS thread that executes the calls into the library, so that the CPU time and
+// the scheduler state of a call can be read per thread.
 type worker struct {
 	jobs chan job
 	tid  int
@@ -217,8 +226,7 @@ func newWorker() *worker {
 		runtime.LockOSThread() // never unlocked: the thread ends with the goroutine
 		ready <- syscall.Gettid()
 		for j := range w.jobs {
-			n, err := j.r.Write(j.b)
-			j.out <- wres{n, err}
+			j.out <- j.f()
 		}
 	}()
 	w.tid = <-ready
@@ -234,72 +242,143 @@ func envMS(name string, def int) time.Duration {
 	return time.Duration(def) * time.Millisecond
 }
 
-// A Write of at most a few hundred bytes needs microseconds of CPU. It is declared hung when its thread has burnt
-// spinBudget of CPU time since the first poll (a runaway retry loop; robust against a loaded machine, where wall time
-// says little), or when wallBudget has passed (blocked for good).
+// A call on a file of a few hundred bytes needs microseconds of CPU and never sleeps. It is declared hung when
+//   - its thread has burnt spinBudget of CPU time since the first poll (a runaway retry loop; robust against a loaded
+//     machine, where wall time says little), or
+//   - its thread has been asleep (state S: parked on a lock or channel) for sleepBudget without interruption
+//     (a dead-lock: nothing in Write/Close/Sync waits for anything but the rotator's own mutex), or
+//   - wallBudget has passed.
 var (
-	spinBudget = envMS("C12_SPIN_MS", 250)
-	wallBudget = envMS("C12_WALL_MS", 10000)
+	spinBudget  = envMS("C12_SPIN_MS", 250)
+	sleepBudget = envMS("C12_SLEEP_MS", 1000)
+	wallBudget  = envMS("C12_WALL_MS", 10000)
 )
 
-const maxHangs = 12 // after that many hung writes the rest of the stream is skipped (the violation is established)
+const maxHangs = 3 // after that many hung calls the rest of the stream is skipped (the violation is established)
 
-type wres struct {
-	n   int
-	err error
+// guard runs calls into the library under the deadline rules above.
+type guard struct {
+	w      *worker
+	hangs  int // hangs seen by this process
+	zombie int // spinning callers that could not be made to return
 }
 
-// write runs one Write under a deadline. ok=false: it did not return.
-func (a *rot) write(b []byte) (wres, bool) {
-	if a.w == nil {
-		a.w = newWorker()
+// call runs f; ok=false: it did not return. killDir, if not empty, is the log directory: a spinning caller is made
+// to fail by replacing that directory with a regular file (MkdirAll then errors out and Write returns), so that it
+// stops burning a core.
+func (g *guard) call(f func() wres, killDir string) (wres, bool) {
+	if g.w == nil {
+		g.w = newWorker()
 	}
-	w := a.w
+	w := g.w
 	ch := make(chan wres, 1)
-	w.jobs <- job{a.r, b, ch}
+	w.jobs <- job{f, ch}
 	t0 := time.Now()
 	tick := time.NewTicker(20 * time.Millisecond)
 	defer tick.Stop()
 	var cpu0 time.Duration
 	haveBase := false
+	var asleepSince time.Time
+	spinning := false
 wait:
 	for {
 		select {
 		case res := <-ch:
 			return res, true
 		case <-tick.C:
-			cpu, ok := threadCPU(w.tid)
+			state, cpu, ok := threadState(w.tid)
 			if ok && !haveBase {
 				cpu0, haveBase = cpu, true
 			}
-			if (ok && cpu-cpu0 >= spinBudget) || time.Since(t0) >= wallBudget {
+			if ok && state == 'S' {
+				if asleepSince.IsZero() {
+					asleepSince = time.Now()
+				} else if time.Since(asleepSince) >= sleepBudget {
+					break wait
+				}
+			} else {
+				asleepSince = time.Time{}
+			}
+			if ok && cpu-cpu0 >= spinBudget {
+				spinning = true
+				break wait
+			}
+			if time.Since(t0) >= wallBudget {
+				spinning = true // unknown; try the kill below anyway
 				break wait
 			}
 		}
 	}
-	a.w = nil // the worker is stuck inside Write; it ends when the Write is made to fail below
+	g.hangs++
+	g.w = nil // the worker is stuck inside the call; it ends when (if) the call returns
 	close(w.jobs)
-	// The writer spins inside Write holding the lock. Make it fail so that it stops burning a core: replace the
-	// log directory by a regular file (MkdirAll then errors out and Write returns).
-	a.hangs++
-	dir := filepath.Dir(a.path)
-	stop := time.Now().Add(3 * time.Second)
-	for time.Now().Before(stop) {
-		_ = os.RemoveAll(dir)
-		_ = os.WriteFile(dir, []byte("x"), 0o600)
-		select {
-		case <-ch:
-			_ = os.Remove(dir)
-			return wres{}, false
-		case <-time.After(5 * time.Millisecond):
+	if spinning && killDir != "" {
+		stop := time.Now().Add(3 * time.Second)
+		for time.Now().Before(stop) {
+			_ = os.RemoveAll(killDir)
+			_ = os.WriteFile(killDir, []byte("x"), 0o600)
+			select {
+			case <-ch:
+				_ = os.Remove(killDir)
+				return wres{}, false
+			case <-time.After(5 * time.Millisecond):
+			}
+		}
+		g.zombie++
+		if g.zombie > 2 {
+			os.Stdout.Sync()
+			os.Exit(3)
 		}
 	}
-	a.zombie++
-	if a.zombie > 3 {
-		os.Stdout.Sync()
-		os.Exit(3)
-	}
 	return wres{}, false
+}
+
+// parseOpts turns the option letters into option functions. path letters are only allowed when withPath is set.
+func (a *rot) parseOpts(spec string, withPath bool) (opts []func(*rotation.Rotator) error, hasPath, ok bool) {
+	if spec == "-" {
+		return nil, false, true
+	}
+	for _, o := range strings.Split(spec, ",") {
+		switch {
+		case o == "P" || o == "Q" || o == "E":
+			if !withPath {
+				return nil, false, false
+			}
+			switch o {
+			case "P":
+				a.path = filepath.Join(a.root, baseName)
+				a.pathO = rotation.Path(a.path)
+			case "Q":
+				a.path = filepath.Join(a.root, "sub", "deeper", baseName)
+				a.pathO = rotation.Path(a.path)
+			default:
+				a.pathO = rotation.Path("")
+			}
+			opts = append(opts, a.pathO)
+			hasPath = true
+		case strings.HasPrefix(o, "S"):
+			v, err := strconv.ParseInt(o[1:], 10, 64)
+			if err != nil {
+				return nil, false, false
+			}
+			opts = append(opts, rotation.MaxSize(v))
+		case strings.HasPrefix(o, "B"):
+			v, err := strconv.ParseInt(o[1:], 10, 64)
+			if err != nil {
+				return nil, false, false
+			}
+			opts = append(opts, rotation.MaxBackups(int(v)))
+		case strings.HasPrefix(o, "M"):
+			v, err := strconv.ParseUint(o[1:], 10, 32)
+			if err != nil {
+				return nil, false, false
+			}
+			opts = append(opts, rotation.WithMask(os.FileMode(v)))
+		default:
+			return nil, false, false
+		}
+	}
+	return opts, hasPath, true
 }
 
 func (a *rot) reset(f []string) string {
@@ -310,40 +389,27 @@ func (a *rot) reset(f []string) string {
 	if len(f) != 3 {
 		return "bad-op"
 	}
-	a.seq++
 	root, err := os.MkdirTemp(scratchBase(), "c12-")
 	if err != nil {
 		return "mktemp-error"
 	}
 	a.root = root
 	a.path = filepath.Join(root, baseName)
-	sub := filepath.Join(root, "sub", "deeper", baseName)
-	hasPath := false
-	if f[1] != "-" {
-		for _, o := range strings.Split(f[1], ",") {
-			switch {
-			case o == "P":
-				a.path = filepath.Join(root, baseName)
-				a.opts = append(a.opts, rotation.Path(a.path))
-				hasPath = true
-			case o == "Q":
-				a.path = sub
-				a.opts = append(a.opts, rotation.Path(a.path))
-				hasPath = true
-			case o == "E":
-				a.opts = append(a.opts, rotation.Path(""))
-				hasPath = true
-			case strings.HasPrefix(o, "S"):
-				a.opts = append(a.opts, rotation.MaxSize(int64(hx.Atoi(o[1:]))))
-			case strings.HasPrefix(o, "B"):
-				a.opts = append(a.opts, rotation.MaxBackups(hx.Atoi(o[1:])))
-			default:
-				return "bad-op"
-			}
-		}
+	opts, hasPath, ok := a.parseOpts(f[1], true)
+	if !ok {
+		return "bad-op"
 	}
+	a.opts = opts
 	if !hasPath {
-		return "nopath" // the default path lies outside the scratch area; never written by the harness
+		// the default path lies outside the scratch area: construct only, never write
+		r, nerr := rotation.New(a.opts...)
+		if nerr != nil {
+			return "new=err"
+		}
+		if r.PathToLog() != rotation.DefaultPath() || r.PathToLog() == "" {
+			return "new=ok path-mismatch"
+		}
+		return "new=ok defaultpath"
 	}
 	if f[2] != "-" {
 		if err = os.MkdirAll(filepath.Dir(a.path), 0o755); err != nil {
@@ -377,7 +443,7 @@ func (a *rot) Run(line string) string {
 	if len(f) == 0 {
 		return "bad-op"
 	}
-	if a.hangs >= maxHangs {
+	if a.g.hangs >= maxHangs && !a.noskip {
 		return "skipped-after-crash" // token of vlib/core.py for lines that were not executed
 	}
 	if f[0] == "reset" {
@@ -397,31 +463,67 @@ func (a *rot) Run(line string) string {
 	if a.dead {
 		return "dead"
 	}
+	r := a.r
+	dir := filepath.Dir(a.path)
 	switch f[0] {
 	case "w":
 		n := hx.Atoi(f[1])
-		b := bytes.Repeat([]byte{writeTag(a.k)}, n)
+		if cap(a.buf) < n {
+			a.buf = make([]byte, n, n+n/2+16)
+		}
+		b := a.buf[:n]
+		tag := writeTag(a.k)
+		for i := range b {
+			b[i] = tag
+		}
 		a.k++
-		res, ok := a.write(b)
+		res, ok := a.g.call(func() wres { n, err := r.Write(b); return wres{n, err} }, dir)
 		if !ok {
 			a.dead = true
 			return "hang"
 		}
+		for i := range b { // the caller's buffer is its own again: scribble over it before looking at the files
+			b[i] = 0xEE
+		}
 		return fmt.Sprintf("n=%d err=%s | %s", res.n, errStr(res.err), observe(a.path))
 	case "close":
-		err := a.r.Close()
-		return "close=" + errStr(err) + " | " + observe(a.path)
+		res, ok := a.g.call(func() wres { return wres{0, r.Close()} }, "")
+		if !ok {
+			a.dead = true
+			return "hang"
+		}
+		return "close=" + errStr(res.err) + " | " + observe(a.path)
 	case "reopen":
-		_ = a.r.Close()
-		r, err := rotation.New(a.opts...)
+		if len(f) > 2 {
+			return "bad-op"
+		}
+		opts := a.opts
+		if len(f) == 2 {
+			extra, _, ok := a.parseOpts(f[1], false)
+			if !ok {
+				return "bad-op"
+			}
+			opts = append(extra, a.pathO)
+		}
+		if _, ok := a.g.call(func() wres { return wres{0, r.Close()} }, ""); !ok {
+			a.dead = true
+			return "hang"
+		}
+		nr, err := rotation.New(opts...)
 		if err != nil {
 			a.r = nil
 			return "new=err"
 		}
-		a.r = r
+		a.r = nr
+		a.opts = opts
 		return "new=ok | " + observe(a.path)
 	case "sync":
-		return "sync=" + errStr(a.r.Sync())
+		res, ok := a.g.call(func() wres { return wres{0, r.Sync()} }, "")
+		if !ok {
+			a.dead = true
+			return "hang"
+		}
+		return "sync=" + errStr(res.err)
 	case "obs":
 		return observe(a.path)
 	}
@@ -431,7 +533,7 @@ func (a *rot) Run(line string) string {
 func main() {
 	a := &rot{}
 	d := &rotdef{}
-	hx.Main(map[string]hx.Area{"rot": a, "rotdef": d, "stress": &stress{}})
+	hx.Main(map[string]hx.Area{"rot": a, "rotdef": d, "stress": &stress{}, "errs": &errArea{}})
 	a.cleanup()
 	d.cleanup()
 }
